@@ -184,14 +184,13 @@ def cOuts (c : Compaction) : List File := c.outputs.map fun o => mkFile o.1 o.2
 structure CompactV (s : State) (c : Compaction) : Prop where
   lvl : c.level + 1 < 7
   q_le : c.smallestSnapshot ≤ s.lastSeq
-  r0_zero : c.level = 0 → ∀ g ∈ cR0 s c, ∀ fe ∈ cI0 s c, NoCommon g fe
-  r0_pos : c.level ≠ 0 → ∀ g ∈ cR0 s c, Apart g (cI0 s c)
+  r0_newer : ∀ g ∈ cR0 s c, ∀ fe ∈ cI0 s c, NewerF g fe
   r1_i0 : ∀ g ∈ cR1 s c, ∀ fe ∈ cI0 s c, NoCommon g fe
   r1_all : ∀ g ∈ cR1 s c, Apart g (cI0 s c ++ cI1 s c)
   outs_ne : ∀ o ∈ c.outputs, o.2 ≠ []
   outs_eq : (c.outputs.map Prod.snd).flatten = cKept s c
   outs_nodup : (c.outputs.map Prod.fst).Nodup
-  outs_fresh : ∀ o ∈ c.outputs, ∀ j g, g ∈ lv s.levels j → g.num < o.1
+  outs_fresh : ∀ o ∈ c.outputs, ∀ j g, g ∈ lv s.levels j → g.num ≠ o.1
 
 theorem mem_cI0 {s : State} {c : Compaction} {f : File} :
     f ∈ cI0 s c ↔ f ∈ lv s.levels c.level ∧ f.num ∈ c.inputs0 := by
@@ -224,25 +223,30 @@ theorem compactV_of_valid {s : State} {c : Compaction} (h : InvP s)
   have hR0 : ∀ g ∈ cR0 s c, FileOk g := fun g hg => h.files _ g (mem_cR0.mp hg).1
   have hR1 : ∀ g ∈ cR1 s c, FileOk g := fun g hg => h.files _ g (mem_cR1.mp hg).1
   split at h8
-  · rename_i lo hi lo0 hi0 loAll hiAll hhull hmin0 hmax0 hminA hmaxA
+  · rename_i lo hi loAll hiAll hhull hminA hmaxA
     change hull (cI0 s c) = some (lo, hi) at hhull
-    change minKey (cI0 s c) = some lo0 at hmin0
-    change maxKey (cI0 s c) = some hi0 at hmax0
     change minKey (cI0 s c ++ cI1 s c) = some loAll at hminA
     change maxKey (cI0 s c ++ cI1 s c) = some hiAll at hmaxA
     simp only [Bool.and_eq_true, List.all_eq_true, Bool.not_eq_true', outside,
       beq_eq_false_iff_ne, ne_eq] at h8
     obtain ⟨⟨⟨h8a, h8b⟩, h8c⟩, h8d⟩ := h8
-    refine ⟨h1, h3, ?_, ?_, ?_, ?_, ?_, h10, (distinctNums_iff _).mp h11, ?_⟩
-    · intro h0 g hg
-      rw [if_pos h0] at h8a
-      simp only [List.all_eq_true, Bool.not_eq_true'] at h8a
-      exact noCommon_of_hull (hR0 g hg) hI0 hhull (h8a g hg)
-    · intro h0 g hg
-      rw [if_neg h0] at h8a
-      simp only [Bool.and_eq_true, List.all_eq_true, Bool.not_eq_true',
-        beq_eq_false_iff_ne, ne_eq] at h8a
-      exact apart_of_outside (hR0 g hg) hI0 hmin0 hmax0 (h8a.1 g hg) (h8a.2 g hg)
+    refine ⟨h1, h3, ?_, ?_, ?_, ?_, h10, (distinctNums_iff _).mp h11, ?_⟩
+    · intro g hg fe hfe
+      by_cases h0 : c.level = 0
+      · rw [if_pos h0] at h8a
+        simp only [List.all_eq_true, Bool.or_eq_true, Bool.not_eq_true', decide_eq_true_eq] at h8a
+        rcases h8a g hg with hno | hnum
+        · intro x hx y hy e
+          exact absurd e (noCommon_of_hull (hR0 g hg) hI0 hhull hno fe hfe x hx y hy)
+        · exact h.order c.level c.level g fe (mem_cR0.mp hg).1 (mem_cI0.mp hfe).1
+            (Or.inr ⟨h0, h0, hnum fe hfe⟩)
+      · rw [if_neg h0] at h8a
+        simp only [List.all_eq_true, Bool.or_eq_true, Bool.and_eq_true, Bool.not_eq_true',
+          beq_eq_false_iff_ne, ne_eq] at h8a
+        rcases h8a g hg fe hfe with hb | ⟨ha, hbd⟩
+        · exact newerF_of_before (hR0 g hg) (hI0 fe hfe) hb
+        · intro x hx y hy e
+          exact absurd e (no_common_key_of_after (hR0 g hg) (hI0 fe hfe) ha hbd hx hy)
     · intro g hg
       exact noCommon_of_hull (hR1 g hg) hI0 hhull (h8c g hg)
     · intro g hg
@@ -250,8 +254,12 @@ theorem compactV_of_valid {s : State} {c : Compaction} (h : InvP s)
     · intro o ho
       have := h9 o ho
       simpa using this
-    · intro o ho j g hg
-      exact h12 o ho g (mem_flatten_iff_lv.mpr ⟨j, hg⟩)
+    · intro o ho j g hg hn
+      have hc := h12 o ho
+      have hm : (s.levels.flatten.map File.num).contains o.1 = true := by
+        rw [List.contains_iff_mem]
+        exact List.mem_map.mpr ⟨g, mem_flatten_iff_lv.mpr ⟨j, hg⟩, hn⟩
+      rw [hm] at hc; cases hc
   · cases h8
 
 /-- the levels after the inputs are removed -/
